@@ -120,7 +120,11 @@ def _m_same_table(pid, v, context):
     if "OperationalError" not in detail or not ("ambiguous column name" in detail or "no such column" in detail):
         return False
     rel = _rel_of(context)
-    return rel is not None and same_table_twice_in_from(rel)
+    if rel is not None and same_table_twice_in_from(rel):
+        return True
+    # processing may prune a statically empty chain branch and thereby un-nest a join: judge the processed tree too
+    processed = (getattr(context, "aux", None) or {}).get("processed")
+    return processed is not None and same_table_twice_in_from(processed)
 
 
 @matcher("projection_past_deduplication")
